@@ -631,12 +631,20 @@ def gen_formula(rng, U, depth):
     return _apply(U, op, a, b, ca, cb, da, db)
 
 
+ORDER_SENSITIVE = [0]
+
+
 def _apply(U, op, a, b, ca, cb, da, db):
     FM = U.FM
     if op == "+":
         return a + b, "(EAdd %s %s)" % (ca, cb), "(%s + %s)" % (da, db)
     if op == "-":
         return a - b, "(ESub %s %s)" % (ca, cb), "(%s - %s)" % (da, db)
+    if FM.is_factor(a) and list(a.terms) != list(b.terms) and set(a.terms) == set(b.terms):
+        # `Factor * other` takes the `self == other` shortcut only if other's terms are in the SAME order; after a product
+        # that order is sympy's (not modelled) - this order-sensitive corner is left out of the correspondence
+        ORDER_SENSITIVE[0] += 1
+        return a + b, "(EAdd %s %s)" % (ca, cb), "(%s + %s)" % (da, db)
     return a * b, "(EMul %s %s)" % (ca, cb), "(%s * %s)" % (da, db)
 
 
@@ -778,7 +786,8 @@ def sec_formulae(ck, FM):
             ck.fail("factor/indicators-partition", "Factor %s design of column %s is not the level-indicator partition: %s %s" % (fname, col, d.dtype.names, M.tolist()),
                     {"factor": fname, "column": [str(c) for c in col], "names": list(d.dtype.names), "design": M.tolist()})
     n = B.run()
-    ck.section("formulae", cases=N, model_cases=n, formulas_with_repeated_term=n_dup, factor_cases=nF, name_order_features=feats)
+    ck.section("formulae", cases=N, model_cases=n, formulas_with_repeated_term=n_dup, factor_cases=nF, name_order_features=feats,
+               products_replaced_because_shortcut_is_order_sensitive=ORDER_SENSITIVE[0])
 
 
 # ----------------------------------------------------------------------------
@@ -948,7 +957,8 @@ def sec_event_block_design(ck, U, DS, FM):
 
         def course(K, amp):
             return np.array([fl(sum((a * K.at(frac(tt) - o) for o, a in zip(onsets, amp)), Fraction(0))) for tt in t])
-        # columns: HRF-major blocks, inside a block one column per level combination (order inside the block not assumed)
+        # columns: for every HRF and every level combination one column = sum of shifted kernels (exact).  The column
+        # ORDER is not assumed (Formula.design orders by coefficient name b0, b1, b10, b11, b2, ... once there are > 10 terms)
         nc = len(combos)
         by_combo = {}
         for o, e in zip(onsets, evl):
@@ -962,17 +972,18 @@ def sec_event_block_design(ck, U, DS, FM):
                         "event_design: two conditions with identical onsets are merged into one doubled column (%d columns for %d conditions x %d HRFs)" % (
                             X.shape[1], nc, nh), dict(rp, X_shape=list(X.shape)))
             continue
+        want_cols = {(l, cb): course(K, [1 if e == cb else 0 for e in evl]) for l, K in enumerate(Ks) for cb in combos}
         ok = X.shape == (len(t), nh * nc)
-        if ok:
-            for l, K in enumerate(Ks):
-                blk = X[:, l * nc:(l + 1) * nc]
-                for cb in combos:
-                    w = course(K, [1 if e == cb else 0 for e in evl])
-                    if not any(np.array_equal(blk[:, j], w) for j in range(nc)):
-                        ok = False
+        free = list(range(X.shape[1])) if ok else []
+        for key_, w in want_cols.items():
+            hit = [j for j in free if np.array_equal(X[:, j], w)]
+            if not hit:
+                ok = False
+                break
+            free.remove(hit[0])
         if not ok:
             ck.fail("event_design/columns/hrfs=%s" % ("1" if nh == 1 else "many"),
-                    "event_design columns are not, HRF by HRF, the per-level sums of shifted kernels", dict(rp, X=X.tolist()))
+                    "event_design columns are not, for every HRF, the per-level sums of shifted kernels", dict(rp, X=X.tolist()))
             continue
         if np.linalg.matrix_rank(X) < X.shape[1]:
             continue
@@ -1002,8 +1013,7 @@ def sec_event_block_design(ck, U, DS, FM):
                 kind = "constant" if key.startswith("constant") else ("interaction" if ":" in key else "main-effect")
             else:   # level contrast `<level column>_<l>`: exactly one column, inside the block of HRF l
                 l = int(key.rsplit("_", 1)[1])
-                blk = X[:, l * nc:(l + 1) * nc]
-                good = meas.shape[1] == 1 and any(np.max(np.abs(meas[:, 0] - blk[:, j])) < 1e-8 for j in range(nc))
+                good = meas.shape[1] == 1 and any(np.max(np.abs(meas[:, 0] - want_cols[(l, cb)])) < 1e-8 for cb in combos)
                 kind = "level"
             if not good:
                 l = int(key.rsplit("_", 1)[1])
@@ -1015,44 +1025,82 @@ def sec_event_block_design(ck, U, DS, FM):
         if i == 1:
             ck.sample({"call": "event_design(onsets=%s, levels=%s, hrfs=%s)" % (rp["onsets"], rp["levels"], rp["kernels"]),
                        "contrast_keys": sorted(c), "X_shape": list(X.shape)})
-    # block_design: convolved block regressors against direct numerical convolution (np.convolve), 1e-10
-    for i in range(ck.n(4, 20)):
-        K = Kern("box", (Fraction(0), Fraction(int(rng.integers(1, 4))), Fraction(1, 2)))
-        h = K.sym()
+    # block_design: 1..2 HRFs, blocks of two kinds; convolved regressors and what the contrasts measure against
+    # direct numerical convolution (np.convolve) of the block train with the kernel samples, 1e-10
+    for i in range(ck.n(6, 30)):
+        nh = 1 + i % 2
+        Ks = [Kern("box", (Fraction(0), Fraction(int(rng.integers(1, 4))), Fraction(1, 2))), Kern("ramp", (Fraction(0), Fraction(2)))][:nh]
+        if i % 4 >= 2:
+            Ks = Ks[::-1]
+        hs = tuple(K.sym() for K in Ks)
         nb = int(rng.integers(2, 4))
         cuts = sorted(set(int(v) for v in rng.choice(12, size=2 * nb, replace=False)))
         ivs = [(cuts[2 * j], cuts[2 * j + 1]) for j in range(nb)]
+        kinds = [1 + (j + i) % 2 for j in range(nb)]
+        with_factor = i % 3 != 0
         t = np.arange(0, 16, 1.0)
         dt, pad = 0.25, 1.0
-        spec = FM.make_recarray([(float(a), float(b)) for a, b in ivs], ("start", "end"))
+        kw = dict(hrfs=hs, convolution_padding=pad, convolution_dt=dt, hrf_interval=(0., 4.))
+        rows = [(float(a), float(b)) + ((k,) if with_factor else ()) for (a, b), k in zip(ivs, kinds)]
+        fields = ("start", "end") + (("kind",) if with_factor else ())
+        rp = {"blocks": ivs, "kinds": kinds if with_factor else None, "kernels": [K.describe() for K in Ks], "dt": dt, "padding": pad,
+              "hrf_interval": [0, 4], "t": "arange(0, 16, 1.0)"}
         try:
-            X, c = DS.block_design(spec, t, hrfs=(h,), convolution_padding=pad, convolution_dt=dt, hrf_interval=(0., 4.))
+            X, c = DS.block_design(FM.make_recarray(rows, fields), t, **kw)
         except Exception as e:  # noqa
-            ck.fail("block_design/raises", "block_design raised %s: %s (blocks %s)" % (type(e).__name__, e, ivs),
-                    {"blocks": ivs, "kernel": K.describe()})
+            ck.fail("block_design/raises", "block_design raised %s: %s (blocks %s)" % (type(e).__name__, e, ivs), rp)
             continue
-        X = np.asarray(X).reshape(len(t), -1)[:, 0]
+        X = np.asarray(X, dtype=float).reshape(len(t), -1)
         lo, hi = ivs[0][0] - pad, ivs[-1][1] + pad
         g1 = np.arange(lo, hi, dt)
         g2 = np.arange(0., 4., dt)
-        bv = np.array([1.0 if any(a <= s < b for a, b in ivs) else 0.0 for s in g1])
-        hv = np.array([fl(K.at(frac(s))) for s in g2])
-        cv = np.convolve(bv, hv) * dt
-        ct = np.arange(len(cv)) * dt + lo
-        want = np.interp(t, ct, cv, left=0, right=0)
-        ck.count(("block_design", tuple(ivs), K.describe()), bucket="block_design")
-        if np.max(np.abs(X - want)) > 1e-10:
-            ck.fail("block_design/direct-convolution", "block_design regressor differs from direct np.convolve of block and kernel samples (blocks %s)" % ivs,
-                    {"blocks": ivs, "kernel": K.describe(), "impl": X.tolist(), "expected": want.tolist()})
-        # the same blocks listed out of time order must give the same regressor
-        if nb >= 2:
-            rev = FM.make_recarray([(float(a), float(b)) for a, b in reversed(ivs)], ("start", "end"))
-            Xr, _ = DS.block_design(rev, t, hrfs=(h,), convolution_padding=pad, convolution_dt=dt, hrf_interval=(0., 4.))
-            Xr = np.asarray(Xr).reshape(len(t), -1)[:, 0]
-            if np.max(np.abs(Xr - want)) > 1e-10:
-                ck.fail("blocks/unsorted-disjoint-intervals",
-                        "block_design with the block_spec rows %s (reverse time order) gives a different regressor than in time order" % list(reversed(ivs)),
-                        {"blocks": list(reversed(ivs)), "kernel": K.describe(), "impl": Xr.tolist(), "expected": want.tolist()})
+
+        def direct(K, amp):
+            bv = np.array([sum(a_ for (a, b), a_ in zip(ivs, amp) if a <= s_ < b) for s_ in g1], dtype=float)
+            hv = np.array([fl(K.at(frac(s_))) for s_ in g2])
+            cv = np.convolve(bv, hv) * dt
+            return np.interp(t, np.arange(len(cv)) * dt + lo, cv, left=0, right=0)
+        groups = [[1 if k == lev else 0 for k in kinds] for lev in (1, 2)] if with_factor else [[1] * nb]
+        ck.count(("block_design", tuple(ivs), tuple(kinds), with_factor, tuple(K.describe() for K in Ks)),
+                 bucket="block_design:hrfs=%d:%s" % (nh, "factor" if with_factor else "plain"))
+        want_cols = [direct(K, g) for K in Ks for g in groups]
+        free = list(range(X.shape[1]))
+        ok = X.shape[1] == len(want_cols)
+        for w in want_cols:
+            hit = [j for j in free if np.max(np.abs(X[:, j] - w)) < 1e-10]
+            if not ok or not hit:
+                ok = False
+                break
+            free.remove(hit[0])
+        if not ok:
+            ck.fail("block_design/direct-convolution", "block_design regressors differ from direct np.convolve of the block trains and kernel samples (blocks %s)" % ivs,
+                    dict(rp, impl=X.tolist(), expected=np.array(want_cols).T.tolist()))
+            continue
+        if np.linalg.matrix_rank(X) == X.shape[1]:
+            for l, K in enumerate(Ks):
+                exp = {"constant_%d" % l: direct(K, [1] * nb)}
+                if with_factor:
+                    exp["kind_%d" % l] = direct(K, [1 if k == 1 else -1 for k in kinds])
+                for key, w in exp.items():
+                    if key not in c:
+                        ck.fail("block_design/contrast-names", "contrast keys %s lack %s" % (sorted(c), key), dict(rp, keys=sorted(c)))
+                        continue
+                    m = X @ np.asarray(c[key], dtype=float).reshape(-1)
+                    if np.max(np.abs(m - w)) > 1e-8:
+                        ck.fail("block_design/contrast-measures-named-terms/%s" % ("single-hrf" if nh == 1 else ("first-hrf" if l == 0 else "later-hrf")),
+                                "contrast %r of block_design with %d HRFs: X.c is not the time course built from HRF %d" % (key, nh, l),
+                                dict(rp, key=key, contrast=np.asarray(c[key]).tolist()))
+        # the same blocks listed out of time order must give the same regressors
+        try:
+            Xr, _ = DS.block_design(FM.make_recarray(rows[::-1], fields), t, **kw)
+            Xr = np.asarray(Xr, dtype=float).reshape(len(t), -1)
+            same = Xr.shape == X.shape and np.max(np.abs(Xr - X)) <= 1e-10
+        except Exception:  # noqa
+            same = False
+        if not same:
+            ck.fail("blocks/unsorted-disjoint-intervals",
+                    "block_design with the block_spec rows %s (reverse time order) gives different regressors than in time order" % list(reversed(ivs)),
+                    dict(rp, blocks=list(reversed(ivs))))
     ck.section("event_block_design", event_cases=N, event_contrast_cases_full_rank=n_con)
 
 
